@@ -19,6 +19,7 @@
 //! (Ok or Err) — no panic, and every case finishes (watchdog).
 
 mod alphabet;
+mod audit;
 mod extra;
 mod loader;
 mod malformed;
@@ -65,6 +66,7 @@ fn replay(ctx: &Ctx, w: &World, case: &Value) {
         }
         "growth" => malformed::replay_growth(w, &case, l),
         "blob-split" => extra::replay_blob_split(w, &case, l),
+        "audit" => audit::replay(w, &case, l),
         "loader" => loader::replay_loader(ctx, w, &case, l),
         "include-valid" => loader::replay_include(ctx, w, &case, l),
         "short-range" => malformed::replay_short_range(w, &case, l),
@@ -137,7 +139,24 @@ fn main() {
          positions for TLSA/DS; thorough: 3 tokens everywhere + blobs of 128/64/598..600 octets) x separators {space, tab, newline in \
          parentheses, comment + newline in parentheses}: the file must load to the same record as the un-split one (SSHFP RFC 4255 and \
          OPENPGPKEY RFC 7929 are silent about inner white space: split outcome only counted; DNSKEY/RRSIG/CDS/... are not \
-         parser-supported types); LOADER differential: SOA+NS+records written to a scratch root and loaded \
+         parser-supported types); AUDIT families (audit.rs; every shape = all 80 RDATA shapes under a.<origin> 300 IN): paren-pos = one \
+         parenthesised group opened before and closed after EVERY pair of token boundaries of the RDATA (empty groups, tight, tokens \
+         after the group) x inner separators {all spaces, all newlines, all comment+newline, one newline / one comment+newline at each \
+         inner boundary}, plus two groups per record; mnemonic-case = class and type in upper/lower/mixed case (also CH/HS); \
+         value-forms = leading zeros on every integer field, upper-case IPv6 and hex; origin-knob = Parser::new origin argument FQDN / \
+         non-FQDN Name / other letter case / root / None + $ORIGIN entry, relative $ORIGIN argument; svc-params = every order of the \
+         SvcParams; line-seq = every sequence of <= 3 (thorough 4) line kinds {record stating everything, inheriting everything, \
+         multi-line with comments, relative; $ORIGIN child/back; $TTL; $INCLUDE; empty / white-space / comment / indented-comment line}; \
+         must-reject = certainly malformed text derived from every shape (unclosed parenthesis with every ending, stray ')', unclosed \
+         quote, every too-short RDATA, surplus token after fixed-arity RDATA, every integer field above its width / negative / not a \
+         number, bad IPv4/IPv6, odd hex, bad base64, TTL beyond 32 bits, no TTL anywhere, blank first owner, unknown class/type, meta \
+         and unsupported types, relative owner with no origin in force, duplicate SvcParamKey, TXT without strings, 256-octet \
+         character-strings, directives without argument, empty labels, lone CR, control characters, an error after valid records): \
+         Err required; only counted (still one unambiguous record, accepted by common servers, or an explicit loud refusal): repeated \
+         TTL/class fields, '+' signs, owner without type, lower-case $origin/$ttl, RFC 3597 generic forms, lower-case CSYNC type list. \
+         LOADER knobs: zone files x store {file, sqlite with a fresh journal} x zone type {Primary, Secondary, External} x AXFR policy \
+         {Deny, AllowAll, AllowSigned} x {root_dir + relative path, absolute path} x nx-proof {none, NSEC, NSEC3}: valid files load \
+         exactly whatever the knobs, files with an error after valid records load NOTHING. LOADER differential: SOA+NS+records written to a scratch root and loaded \
          by the real FileZoneHandler::try_from_config(root_dir, zone_path), loaded zone and AXFR answer of the real Catalog == records \
          of the file; $INCLUDE in the valid direction: a 4-record file split at every pair of positions into parent + included file \
          (nested once) x included-file origin (inherited / own $ORIGIN; the unsupported $INCLUDE origin argument is only counted) x relative names on either side x final \
@@ -219,7 +238,7 @@ fn main() {
     {
         let prof = Profile::pair(thorough);
         profiles.insert("pair".into(), prof.describe());
-        let (nenv, nshape) = if thorough { (5, 6) } else { (3, 4) };
+        let (nenv, nshape) = if thorough { (5, 6) } else { (3, 3) };
         let pick: Vec<usize> = (0..36).filter(|i| i / 6 < nenv && i % 6 < nshape).collect();
         let stats = Mutex::new(Stats::default());
         let n = (pick.len() * pick.len()) as u64;
@@ -310,6 +329,12 @@ fn main() {
             ctx.machinery_failure("vacuous: no split blob was loaded exactly");
         }
     }
+    // audit-round families (see audit.rs)
+    {
+        let n = audit::run(&ctx, &w, &dir.join("audit"), thorough);
+        ctx.set("audit_cases", json!(n));
+        eprintln!("[C20] audit families: {} cases, must-reject rejected={} at {:.1}s", n, ctx.outcome_count("audit:must-reject:rejected"), ctx.elapsed_s());
+    }
     // the server's loader: parsed set == loaded zone == AXFR of the loaded zone
     {
         let n = loader::loader_family(&ctx, &w, &dir.join("loader"), thorough);
@@ -317,6 +342,12 @@ fn main() {
         eprintln!("[C20] loader: {} zone files, ok={} skipped={} at {:.1}s", n, ctx.outcome_count("loader:ok"), ctx.outcome_count("loader:skipped:parser-level-difference"), ctx.elapsed_s());
         if ctx.outcome_count("loader:ok") == 0 {
             ctx.machinery_failure("vacuous: the loader differential never compared a loaded zone");
+        }
+        let nk = loader::loader_knobs(&ctx, &w, &dir.join("loader-knobs"), thorough);
+        ctx.set("loader_knob_cases", json!(nk));
+        eprintln!("[C20] loader knobs: {} loads, ok={} error-files-refused={} at {:.1}s", nk, ctx.outcome_count("loader-knobs:ok"), ctx.outcome_count("loader-knobs:error-file:nothing-loaded"), ctx.elapsed_s());
+        if ctx.outcome_count("loader-knobs:ok") == 0 || ctx.outcome_count("loader-knobs:error-file:nothing-loaded") == 0 {
+            ctx.machinery_failure("vacuous: loader-knob family");
         }
         let (ni, nl) = loader::include_family(&ctx, &w, &dir.join("include"));
         ctx.set("include_valid_cases", json!(ni));
